@@ -117,6 +117,9 @@ class DispatchingRequestHandler(BaseHTTPRequestHandler):
             self.wfile.write(response_xml_string)
 
     def do_GET(self):  # pylint: disable=invalid-name
+        if self.headers.get('content-length') or self.headers.get('transfer-encoding'):
+            # the body of a GET request is not read: close the connection instead of taking the body for the next request
+            self.close_connection = True  # pylint: disable=attribute-defined-outside-init
         if self.server.dispatcher is None:
             # close this connection
             self.close_connection = True  # pylint: disable=attribute-defined-outside-init
